@@ -30,37 +30,40 @@ func CheckConstructor(
 	filesToCheck := config.FilterFiles(pass)
 
 	for file := range filesToCheck {
-		currentFunction := ""
-
-		ast.Inspect(file, func(n ast.Node) bool {
-			switch node := n.(type) {
-			case *ast.FuncDecl:
-				currentFunction = node.Name.Name
-				return true
-
-			case *ast.CompositeLit:
-				v := checkCompositeLiteral(pass, node, constructors, currentFunction)
-				if v != nil {
-					violations = append(violations, *v)
-				}
-				return true
-
-			case *ast.CallExpr:
-				v := checkNewCall(pass, node, constructors, currentFunction)
-				if v != nil {
-					violations = append(violations, *v)
-				}
-				return true
-
-			case *ast.GenDecl:
-				if node.Tok == token.VAR {
-					vs := checkVarDeclaration(pass, node, constructors, currentFunction)
-					violations = append(violations, vs...)
-				}
-				return true
+		// Walk each top-level declaration separately: only code inside a function declaration
+		// is "in" that function; package-level declarations are in none
+		for _, decl := range file.Decls {
+			currentFunction := ""
+			if funcDecl, ok := decl.(*ast.FuncDecl); ok {
+				currentFunction = funcDecl.Name.Name
 			}
-			return true
-		})
+
+			ast.Inspect(decl, func(n ast.Node) bool {
+				switch node := n.(type) {
+				case *ast.CompositeLit:
+					v := checkCompositeLiteral(pass, node, constructors, currentFunction)
+					if v != nil {
+						violations = append(violations, *v)
+					}
+					return true
+
+				case *ast.CallExpr:
+					v := checkNewCall(pass, node, constructors, currentFunction)
+					if v != nil {
+						violations = append(violations, *v)
+					}
+					return true
+
+				case *ast.GenDecl:
+					if node.Tok == token.VAR {
+						vs := checkVarDeclaration(pass, node, constructors, currentFunction)
+						violations = append(violations, vs...)
+					}
+					return true
+				}
+				return true
+			})
+		}
 	}
 
 	return violations
